@@ -273,6 +273,7 @@ def finish(mod, tier, seed, cfgs, results, t0):
             "samples": samples or [{"note": "no samples"}],
             "configs": [c.get("name") for c in cfgs][:400],
             "harness_problems": harness_problems,
+            "slowest_configs": sorted(((d.get("wall_s", 0), d["cfg"].get("name")) for d in results), reverse=True)[:8],
             "repo": shims.REPO,
         },
     }
@@ -282,6 +283,7 @@ def finish(mod, tier, seed, cfgs, results, t0):
           "fidelity=%d solver=%.1fs wall=%.1fs exit=%d" % (pid, tier, len(results), tot_ob, tot_dis, len(unknown_core),
                                                            len(unknown_ext), len(known_hits), len(violations), fid,
                                                            stats.solver_s, wall, exit_code))
+    print("  slowest: %s" % sorted(((d.get("wall_s", 0), d["cfg"].get("name")) for d in results), reverse=True)[:4])
     for hp in harness_problems:
         print("HARNESS-PROBLEM property=%s %s" % (pid, hp[:1500]))
     if errors:
